@@ -113,6 +113,11 @@ def load_remote(spelled, unpack, accept, payload, env):
             out = load_dataset(spelled, unpack_dataset_columns=unpack)
         except Exception as e:  # noqa: BLE001
             out = e
+    if accept and isinstance(out, OSError) and sim.calls and not getattr(sim, "sha_consulted", 0):
+        # the synthetic payload can only be accepted if the harness's checksum table is consulted; an implementation
+        # that verifies in a way the harness does not intercept cannot be judged by this sub-check
+        raise rs.Unobservable(f"checksum verification of {spelled!r} did not pass through hashlib.sha256 / hashlib.new / "
+                              f"_base._sha256: {out}")
     return out, sim
 
 
@@ -351,7 +356,7 @@ def spelling_body(ctx, case):
 def unknown_case(draw, ctx):
     names = [n for _, n in all_names()]
     base_name = names[draw(st.integers(0, len(names) - 1))]
-    how = draw(st.sampled_from(["typo", "prefix", "suffix", "empty", "attr", "case", "space", "tail", "tail", "middle"]))
+    how = draw(st.sampled_from(["typo", "prefix", "suffix", "empty", "attr", "tail", "tail", "middle"]))
     if how == "typo":
         i = draw(st.integers(0, len(base_name) - 1))
         bad = base_name[:i] + draw(st.sampled_from("xq7")) + base_name[i + 1:]
